@@ -35,7 +35,9 @@ Extras == { <<U(8, "s")>>, <<Bool>>, <<U(12, "t"), Var(U(3, "s"), 2)>>,
             <<Fix(U(8, "s"), 2)>>,                       \* a fixed-length octet array (read in one piece by an implementation)
             <<Bool, Fix(U(8, "s"), 2)>>,                 \* the same, off a byte boundary
             <<V(5), U(8, "s")>>,                         \* padding, then a field
-            <<V(8), Del(St(<<U(8, "s")>>), 16)>> }       \* padding, then a field of a delimited type
+            <<V(8), Del(St(<<U(8, "s")>>), 16)>>,        \* padding, then a field of a delimited type
+            <<Un(<<U(8, "s"), Bool>>)>>,                 \* a field of a union type (its tag lies beyond the old data)
+            <<Bool, Var(Un(<<Bool, U(3, "s")>>), 2)>> }  \* ... and an array of unions
 Ctxs == { St(<<Hole>>),
           St(<<U(3, "s"), Hole, U(8, "s")>>),
           St(<<Fix(Hole, 2), U(8, "s")>>),
